@@ -143,7 +143,11 @@ public:
                    lineNumber == other.lineNumber &&
                    symbolName == other.symbolName &&
                    hash == other.hash &&
-                   thisAndNextLine == other.thisAndNextLine;
+                   thisAndNextLine == other.thisAndNextLine &&
+                   type == other.type &&
+                   lineBegin == other.lineBegin &&
+                   lineEnd == other.lineEnd &&
+                   macroName == other.macroName;
         }
 
         std::string toString() const;
